@@ -187,6 +187,8 @@ type LazyVal struct {
 
 // RangeIter for range over string / map
 type IterVal struct {
+	Ascii []*Term // range over a string of concrete length whose bytes are all provably ASCII: its bytes
+	NoAscii bool  // checked: not provably ASCII
 	Kind  string
 	Str   *StringVal
 	Pos   *Term
